@@ -1010,6 +1010,13 @@ bool DTDScanner::scanCharRef(XMLCh& first, XMLCh& second)
          else
         {
             value = (value * radix) + nextVal;
+            // Guard against overflow: a value that wraps round could
+            // come out as a valid character.
+            if (value > 0x10FFFF) {
+                // Character reference was not in the valid range
+                fScanner->emitError(XMLErrs::InvalidCharacterRef);
+                return false;
+            }
         }
 
         // Indicate that we got at least one good digit
